@@ -69,7 +69,7 @@ CHECKS = {
          "Cells exhaustive, everything else sampled; generator restrictions in DESIGN.md 5/C09 (H).",
          "deterministic simulation of NETCONF session establishment; decision-table oracle + strict decoder", "5/C09"),
  "C14": ("exploration",
-         "The strict x known-hosts cells are enumerated by run index with generated identities; the real standard transport connects through the guarded Dial seam to an in-process golang.org/x/crypto/ssh server that records user, offered passwords/keys and session requests; Open must succeed exactly when the host-key policy and the credentials allow, and nothing may be offered to an unverified host. A second leg runs the system transport over a real pty (stand-in ssh binary printing its argv, and the installed OpenSSH client against the in-process server) -- real components, uncontrolled schedule.",
+         "The strict x known-hosts cells are enumerated by run index with generated identities; the real standard transport connects through the guarded Dial seam to an in-process golang.org/x/crypto/ssh server that records user, offered passwords/keys and session requests; Open must succeed exactly when the host-key policy and the credentials allow, and nothing may be offered to an unverified host. A second leg runs the system transport over a real pty (stand-in ssh binary printing its argv, and the installed OpenSSH client against the in-process server), and the standard transport's own ssh.Dial branch to that server by host name over a real loopback socket (keys listed for the name and/or the address) -- real components, uncontrolled schedule.",
          "The standard leg runs free inside the bubble (crypto/ssh has no hook points): verdicts are deterministic, packet traces are not. The Dial seam repeats the three lines after ssh.Dial (DESIGN.md section 8). The OS leg is not deterministic simulation and is labelled so in the evidence.",
          "deterministic simulation (in-memory connection + in-process ssh server, cells enumerated) plus a real-kernel leg for the system transport", "5/C14"),
  "C15": ("exploration",
